@@ -327,6 +327,10 @@ func (v *visitor) SliceNode(node *ast.SliceNode) reflect.Type {
 				return v.error(node.To, "invalid operation: non-integer slice index %v", to)
 			}
 		}
+		// Slicing an array yields a slice of its element type.
+		if d := dereference(t); d != nil && d.Kind() == reflect.Array {
+			return reflect.SliceOf(d.Elem())
+		}
 		return t
 	}
 
